@@ -237,3 +237,46 @@ fn probe_collect_hashmap() {
         core::mem::forget(cx);
     }
 }
+
+#[kani::proof]
+fn probe_conversions_identity() {
+    use crate::slice::{GcSlice, GcStr};
+    use crate::zst_cache::ZstCache;
+    unsafe {
+        let cx = Context::new();
+        let mc = cx.mutation_context();
+        // slice with symbolic length (<= 3 so copy loops stay tiny), thin/fat round trip reconstructs the length
+        let n: usize = kani::any();
+        kani::assume(n <= 3);
+        let src = [7u32, 8, 9];
+        let s = GcSlice::new_slice(mc, &src[..n]);
+        let thin = Gc::as_thin(s);
+        let fat = Gc::as_fat(thin);
+        assert!(Gc::ptr_eq(fat, s));
+        assert!(Gc::as_ptr(fat) as *const u8 == Gc::as_ptr(s) as *const u8);
+        assert!(fat.len() == n && thin.len() == n);
+        if n > 0 { assert!(fat[n - 1] == src[n - 1]); }
+        // erase / downgrade / upgrade / as_ptr / from_ptr keep the address
+        let e = Gc::erase(s);
+        assert!(Gc::as_ptr(e) as *const u8 == Gc::as_ptr(s) as *const u8);
+        let w = Gc::downgrade(s);
+        let u = w.upgrade(mc).unwrap();
+        assert!(Gc::ptr_eq(u, s));
+        let back = Gc::<[u32], _>::from_ptr_with_kind(Gc::as_ptr(s));
+        let back: GcSlice<'_, u32> = back;
+        assert!(Gc::ptr_eq(back, s) && back.len() == n);
+        // unsize to a trait object keeps the address
+        let g = Gc::new(mc, 5u64);
+        let d = crate::unsize!(g => dyn core::any::Any);
+        assert!(Gc::as_ptr(d) as *const u8 == Gc::as_ptr(g) as *const u8);
+        // ZstCache: shared pointer only for ZSTs whose alignment fits
+        #[repr(align(8))] struct A8; #[repr(align(32))] struct A32;
+        let c = ZstCache::<16>::new(mc);
+        let p8 = c.alloc_static(mc, A8);
+        let p32 = c.alloc_static(mc, A32);
+        let pn = c.alloc_static(mc, 3u8);
+        assert!(c.is_cached(p8) && !c.is_cached(p32) && !c.is_cached(pn));
+        assert!((Gc::as_ptr(p32) as usize) % 32 == 0);
+        core::mem::forget(cx);
+    }
+}
